@@ -33,6 +33,7 @@ Do(name, e) ==
     [] name = "Tick"    -> Tick
     [] name = "StartPull" -> StartPull
     [] name = "StopPull"  -> StopPull
+    [] name = "KickPull"  -> KickPull
     [] name = "PullOk"    -> PullOk
     [] name = "PullFail"  -> PullFail
     [] name = "PullEnd"   -> PullEnd
